@@ -68,6 +68,7 @@ fn main() {
         "C11" => props::c11::run(tier, seed, only.and_then(|s| s.parse().ok())),
         "C19" => props::c19::run(tier, seed, only.and_then(|s| s.parse().ok())),
         "C07" => props::c07::run(tier, seed, only),
+        "C04" => props::c04::run(tier, seed, only),
         "C05" => props::c05::run(tier, seed, only.and_then(|s| s.parse().ok())),
         "C15" => props::c15::run(tier, seed, only),
         "C06" => props::c06::run(tier, seed, only.and_then(|s| s.parse().ok())),
